@@ -72,7 +72,7 @@ fn rewrite_rl(bytes: &[u8], new_rl: u32) -> Vec<u8> {
 }
 
 fn mutant() -> BoxedStrategy<(Vec<u8>, String)> {
-    (base_packet(), 0u8..12, any::<u16>(), any::<u8>(), any::<bool>())
+    (base_packet(), 0u8..14, any::<u16>(), any::<u8>(), any::<bool>())
         .prop_map(|((mut b, name), kind, pos, val, flag)| {
             let n = b.len().max(1);
             let at = ((pos as usize) * n) >> 16;
@@ -169,6 +169,20 @@ fn mutant() -> BoxedStrategy<(Vec<u8>, String)> {
                     b.splice(p..p, ins.iter().copied());
                     b = rewrite_rl(&b, rl + ins.len() as u32);
                     label = "property-splice";
+                }
+                11 | 12 => {
+                    // a two-byte length prefix that overshoots / undershoots by one or two: added
+                    // to the big-endian u16 at a position biased towards the end of the packet,
+                    // where a string or binary field has nothing behind it
+                    let back = (val as usize % 24).min(n.saturating_sub(2));
+                    let p = if kind == 11 { n.saturating_sub(2 + back) } else { at.min(n.saturating_sub(2)) };
+                    if p + 1 < b.len() && p >= 1 {
+                        let v = u16::from_be_bytes([b[p], b[p + 1]]);
+                        let d = 1 + (pos % 2);
+                        let v2 = if flag { v.wrapping_add(d) } else { v.wrapping_sub(d) };
+                        b[p..p + 2].copy_from_slice(&v2.to_be_bytes());
+                    }
+                    label = "length-prefix+-";
                 }
                 _ => {
                     label = "valid-packet-any-phase";
@@ -584,6 +598,37 @@ impl Property for C04 {
                 for phase in [Phase::Connect, Phase::Authorize, Phase::Run] {
                     v.push(Case { phase, label: format!("truncate:{name}"), bytes: b[..k].to_vec(), chunk: 0, fault: Fault::Eof(k as u16) });
                     v.push(Case { phase, label: format!("truncate+fix-rl:{name}"), bytes: fixed.clone(), chunk: if k % 2 == 0 { 0 } else { 1 }, fault: Fault::None });
+                }
+            }
+        }
+        // every property of every rich packet moved to the END of the property block in turn, and
+        // the two-byte value at each of the last 14 offsets raised by 1 and by 2: a string / binary
+        // length that overshoots what is there, with nothing behind it
+        for pkt in &rich {
+            let name = pkt.name().to_lowercase();
+            for last in 0..18usize {
+                let mut order = vec![0u8; 24];
+                order[last] = 1;
+                let b = rc::encode(pkt, &rc::Form { order, short: false });
+                for back in 0..14usize {
+                    if b.len() < 4 + back {
+                        continue;
+                    }
+                    let p = b.len() - 2 - back;
+                    if p < 2 {
+                        continue;
+                    }
+                    for d in [1u16, 2] {
+                        let mut m = b.clone();
+                        let raised = u16::from_be_bytes([m[p], m[p + 1]]).wrapping_add(d);
+                        m[p..p + 2].copy_from_slice(&raised.to_be_bytes());
+                        let phase = match pkt {
+                            rc::Packet::Connack(_) => Phase::Connect,
+                            rc::Packet::Auth(_) => Phase::Authorize,
+                            _ => Phase::Run,
+                        };
+                        v.push(Case { phase, label: format!("length-prefix+{d}:{name}"), bytes: m, chunk: 0, fault: Fault::None });
+                    }
                 }
             }
         }
